@@ -195,6 +195,45 @@ def build(tier, repo):
     chk.note_analysed("typed_switches", nsw)
     r6.require(10)
 
+    r7 = chk.rule("C15-R7", "typecode ids are tested against the 'absent' sentinel -1 with >= 0 / < 0 (INT is id 0), never with > 0 / <= 0",
+                  "the typecode follows the documented promotion i < d < z; an explicit tc='i' is honoured")
+    nid = 0
+    for fname in ("dense.c", "sparse.c", "base.c"):
+        cc = cs[fname]
+        for fn in cc.order:
+            node = cc.funcs[fn]
+            txt = cx.strip_pp(cc.text(node["b"], node["e"]))
+            for m_ in re.finditer(r"\b(id|id_\w+|\w+_id)\s*(>=|<=|>|<)\s*(0|1|-1)\b(?!\.)", txt):
+                v, op, k = m_.group(1), m_.group(2), m_.group(3)
+                nid += 1
+                key = "%s:%s:%s %s %s" % (fname, fn, v, op, k)
+                where = "src/C/%s:%s:%d" % (fname, fn, cc.line_of(node["b"]) + txt[:m_.start()].count("\n"))
+                if (op, k) in ((">=", "0"), ("<", "0"), (">", "-1"), ("<=", "-1")):
+                    r7.ok(key, where, "sentinel test")
+                else:
+                    r7.violation(key, where, "`%s %s %s` treats the typecode id 0 (INT, tc='i') like the 'absent' sentinel -1" % (v, op, k),
+                                 "%s >= 0 / %s < 0" % (v, v), "%s %s %s" % (v, op, k))
+    # the dense and the sparse block constructors refuse the same conversions
+    def _conv_guard(cc, fn):
+        sim_ = cm.Simulator(cc, fn)
+        for st in cf.walk(sim_.body):
+            if st.get("k") == "IfStmt" and len(st.get("c", [])) > 1 and st.get("b") is not None:
+                t_ = cc.text(st["b"], st["b"] + 200)
+                if "illegal type conversion" in t_.split(";")[0] + t_.split(";")[1 if ";" in t_ else 0]:
+                    ce_ = sim_.cond_of(st)
+                    return cx.unparse(ce_) if ce_ is not None else None
+        return None
+    gd, gs = _conv_guard(cs["dense.c"], "dense_concat"), _conv_guard(cs["sparse.c"], "sparse_concat")
+    if gd is None or gs is None:
+        r7.undecided("dense_concat~sparse_concat:conversion guard", "src/C/dense.c:dense_concat", "guard of 'illegal type conversion' not found")
+    elif gd == gs:
+        r7.ok("dense_concat~sparse_concat:conversion guard", "src/C/dense.c:dense_concat", gd)
+    else:
+        r7.violation("dense_concat~sparse_concat:conversion guard", "src/C/dense.c:dense_concat",
+                     "the dense and the sparse block constructors refuse different type conversions", gs, gd)
+    chk.note_analysed("id_sentinel_tests", nid)
+    r7.require(3)
+
     r5 = chk.rule("C15-R5", "Python-level max/min/mul/div return fresh matrices", "regular operations create new objects")
     path = repo + "/src/python/__init__.py"
     try:
